@@ -24,7 +24,7 @@ SHRINK = False
 IMPL_TIMEOUT = 2400
 
 
-def build(t, tr, offs, behaviour, n, tag, mon="before"):
+def build(t, tr, offs, behaviour, n, tag, mon="before", stall_ms=0):
     peer = netgen.PEER[t]
     N = netgen.hs_len(peer)
     # the monitor that must be told is the one INSTALLED when the handshake fails: installed before bind (the usual
@@ -48,6 +48,10 @@ def build(t, tr, offs, behaviour, n, tag, mon="before"):
         k = min(k, N - 1)
         ops += [f"rawconn {c} ep#0", f"rawhs {c} {peer} {k}", f"rawwait {c} greeting"]
         if behaviour == "close":
+            if stall_ms:
+                # the client stays silent for a LONG time before it gives up: the failure is still reported (a handshake
+                # the library itself gives up on after some deadline is a failed handshake like any other)
+                ops.append(f"pause {stall_ms}")
             ops.append(f"rawclose {c}")
             failed += 1
         elif behaviour == "garbage":
@@ -102,6 +106,10 @@ def cases(tier, rng):
                 for k in (0, 12, 64, N - 1):
                     out.append(build(t, "tcp4", [k], beh, n, "offset", mon=mon))
                     n += 1
+    # a client that stalls for a long time (longer than a typical handshake deadline) and then goes away
+    for ms in ((6500,) if tier == "quick" else (6500, 31000)):
+        out.append(build("PULL", "tcp4", [20], "close", n, f"long-stall-{ms}", stall_ms=ms))
+        n += 1
     # connections ABORTED (RST) right after connect, in bursts: some resets arrive before the accept loop has taken the
     # connection (then the per-connection setup fails inside the accept loop itself) — each must fail only itself
     for t in (["PULL", "ROUTER"] if tier == "quick" else netgen.TYPES9):
